@@ -595,6 +595,37 @@ def _vec_deref(ev, args, depth):
     return deref(args[0])
 
 
+def _checked(op, ty):
+    def f(ev, args, depth):
+        a, b = deref(args[0]), deref(args[1])
+        r = {"add": a + b, "sub": a - b, "mul": a * b}[op]
+        if in_range(r, ty):
+            return Adt("std::option::Option", "Some", (r,))
+        return Adt("std::option::Option", "None", ())
+    return f
+
+
+def _ok_or(ev, args, depth):
+    v = deref(args[0])
+    if isinstance(v, Adt) and v.variant == "Some":
+        return Adt("std::result::Result", "Ok", v.fields)
+    if isinstance(v, Adt) and v.variant == "None":
+        return Adt("std::result::Result", "Err", (args[1],))
+    raise Unknown("ok_or on %r" % (v,))
+
+
+def _saturating_sub(ev, args, depth):
+    a, b = deref(args[0]), deref(args[1])
+    return max(a - b, 0)
+
+
+def _wrapping(op, ty):
+    def f(ev, args, depth):
+        a, b = deref(args[0]), deref(args[1])
+        return wrap({"add": a + b, "sub": a - b, "mul": a * b}[op], ty)
+    return f
+
+
 def _len(ev, args, depth):
     v = deref(args[0])
     if isinstance(v, SeqVal):
@@ -608,7 +639,26 @@ def _len(ev, args, depth):
     raise Unknown("len of %r" % (v,))
 
 
+def _is_empty(ev, args, depth):
+    return _len(ev, args, depth) == 0
+
+
 STD_MODELS = {
+    "std::vec::Vec::<T, A>::is_empty": _is_empty,
+    "core::slice::<impl [T]>::is_empty": _is_empty,
+    "std::collections::HashMap::<K, V, S, A>::is_empty": _is_empty,
+    "core::num::<impl usize>::checked_add": _checked("add", "usize"),
+    "core::num::<impl usize>::checked_sub": _checked("sub", "usize"),
+    "core::num::<impl usize>::checked_mul": _checked("mul", "usize"),
+    "core::num::<impl u32>::checked_add": _checked("add", "u32"),
+    "core::num::<impl u32>::checked_sub": _checked("sub", "u32"),
+    "core::num::<impl u32>::checked_mul": _checked("mul", "u32"),
+    "core::num::<impl usize>::saturating_sub": _saturating_sub,
+    "core::num::<impl usize>::wrapping_add": _wrapping("add", "usize"),
+    "core::num::<impl usize>::wrapping_sub": _wrapping("sub", "usize"),
+    "core::num::<impl u8>::wrapping_add": _wrapping("add", "u8"),
+    "core::num::<impl u8>::wrapping_sub": _wrapping("sub", "u8"),
+    "std::option::Option::<T>::ok_or": _ok_or,
     "std::vec::Vec::<T, A>::len": _len,
     "core::slice::<impl [T]>::len": _len,
     "std::collections::HashMap::<K, V, S, A>::len": _len,
